@@ -69,7 +69,7 @@ func (prop) Run(ctx *fw.Ctx, i int) fw.Result {
 	if r.Chance(1, 3) {
 		plan = gen.JoinedPlan(spec, "root.sysl")
 	} else {
-		plan = gen.SplitPlan(spec, r.Fork(), gen.SplitOpts{MaxBlocks: 4, MaxFiles: 3, SplitTypes: true, SplitRest: false})
+		plan = gen.SplitPlan(spec, r.Fork(), gen.SplitOpts{MaxBlocks: 4, MaxFiles: 3, SplitTypes: true, SplitRest: false, StubEps: true})
 	}
 	rd := gen.Render(plan, gen.RandomLayout(r.Fork()))
 	names := rd.SortedFileNames()
